@@ -141,7 +141,7 @@ structure Cfg where
 
 inductive CState where
   | closed | opened | halfOpen
-  deriving Repr, DecidableEq
+  deriving Repr, DecidableEq, Inhabited
 
 structure Entry where
   key : Nat
@@ -159,7 +159,7 @@ structure Breaker where
   lastSuccess : Option Nat := none
   trips : Nat := 0
   totalErrors : Nat := 0
-  deriving Repr, DecidableEq
+  deriving Repr, DecidableEq, Inhabited
 
 structure State where
   now : Nat := 0
@@ -365,5 +365,9 @@ def exec (cfg : Cfg) (H : Hashes) (s : State) : List Op → State × List Obs
     (rest.1, ⟨op, r.2⟩ :: rest.2)
 
 def idHashes : Hashes := ⟨id, id⟩
+
+/-- What the source translator (harness/vf/extract/py2lean_breaker.py) emits for a method that left its subset:
+    a default value, so that the agreement theorem of that method fails. -/
+def untranslatable {α : Type} [Inhabited α] (_construct : String) : α := default
 
 end Operon.Cffl
